@@ -346,7 +346,7 @@ func Retarget(c *Case, wantLen, wantCS int) bool {
 	if leaf == nil {
 		return false
 	}
-	withTrailer := false
+	withTrailer := true
 	bodyLen := func() int {
 		m := Expected(c, withTrailer)
 		toks, _ := ref.Tokenize(m)
